@@ -28,9 +28,11 @@ def budget_for(ctx):
 
 
 def make_case(ctx, rng, weights=None, rules=None, snap_ballots=False, render=False, allow_eq=True,
-              meek_rational=False, allow_rational=True, budget=None, big=None):
+              meek_rational=False, allow_rational=True, budget=None, big=None, tweak=None):
     weights = dict(weights or DEFAULT_WEIGHTS)
     opts = configs.random_config(rng, rules, allow_rational=allow_rational, meek_rational=meek_rational)
+    if tweak is not None:
+        opts = tweak(rng, opts)
     if allow_eq and opts['rule'] in ('meek', 'warren') and rng.random() < 0.25:
         weights = dict(G8=1)
     if big is None:
